@@ -346,7 +346,7 @@ def run_round_history(case, backend_name, twice=False):
               lambda: f'backend {backend_name}: same state, cohort reversed: differ by '
                       f'{diff(a, b):.3e}')
     ids = [c[0] for c in clients]
-    require(set(diag) == set(ids) and len(diag) == len(ids), 'diagnostics_keys',
+    require(set(diag) == set(ids) and len(diag) == len(set(ids)), 'diagnostics_keys',
             f'backend {backend_name}: diagnostics for {sorted(diag)} vs clients {sorted(ids)}')
     out.append(to_np(state.params))
   return out, datasets
@@ -568,6 +568,10 @@ def case_strategy(draw, tier, relation=False):
                               max_size=len(allowed), unique=True))
       if lo and len(members) < min(2, len(allowed)) and draw(st.booleans()):
         members = list(allowed)
+    if members and draw(st.integers(0, 5)) == 0:
+      # a cohort sampled with replacement: the same client (id and dataset)
+      # once more, somewhere in the round; it counts once per occurrence
+      members.insert(draw(st.integers(0, len(members))), draw(st.sampled_from(members)))
     rounds.append([[i, draw(st.integers(0, 2**20))] for i in members])
   if all(not r for r in rounds) and allowed:
     rounds[0] = [[allowed[0], 7]]
@@ -598,6 +602,8 @@ def labels(case):
       ls.append('round_with_empty_client')
     if not r:
       ls.append('empty_cohort')
+    if len({i for i, _ in r}) < len(r):
+      ls.append('client_twice_in_one_cohort')
     if any(i in seen for i, _ in r):
       ls.append('returning_client')
     seen.update(i for i, _ in r)
